@@ -58,7 +58,8 @@ def profile_variants(specs: list, tier: str, mod=None) -> list:
     repeated (ALL_SHARDS_UNDER_PROFILES: the cheap, exhaustive call-sequence sweeps of C13 and C16 under python -O)."""
     own = [s for s in specs if s.get("kind") not in ("e2e", "combos") and isinstance(s.get("n"), int)]
     extra = [s for s in specs if s.get("kind") in ("e2e", "combos")]
-    picked = own[-1:] + extra[:1]
+    pref = [s for s in own if s.get("kind") in ("random", "randomised", "trees", "misspelt", "histories", "layers", "scans", "pairs", "diagram")]
+    picked = (pref[-1:] or own[-1:]) + extra[:1]
     if not picked:
         picked = specs[-1:]
     out = []
@@ -86,6 +87,7 @@ def run_shard_inprocess(pid: str, spec: dict) -> Acc:
     hub.reset(acc)
     mod = prop_module(pid)
     hub.scan_crash_owner = pid if pid in ("C02", "C04", "C08", "C09", "C10", "C14", "C15") else "C04"
+    hub.copy_owner = pid
     from .budget import ShardAbort
 
     profile = spec.get("_profile")
